@@ -371,9 +371,12 @@ func (an *Analysis) handleStructFields(typ *types.Struct, ctx context) []StructF
 		fieldType := an.handleType(field.Type(), ctx)
 
 		// to simplify, we do not fully support embedded fields :
-		// we only accept structs, and we merge the fields
+		// we only accept structs, and we merge the fields.
+		// As encoding/json does, an embedded struct with a JSON name is not merged,
+		// but handled as a regular field
 		if field.Embedded() {
-			if st, isStruct := fieldType.(*Struct); isStruct {
+			jsonName, _, _ := strings.Cut(tag.Get("json"), ",")
+			if st, isStruct := fieldType.(*Struct); isStruct && jsonName == "" {
 				log.Printf("gomacro: embedded struct field %s will be flattened", field.Name())
 				out = append(out, st.Fields...)
 				continue
